@@ -275,10 +275,9 @@ def materialize(env, ex, args, ob, model, st_heap0):
             arr = st_heap0.get(f)
             if arr is None:
                 continue
-            if not any(f == n or f.endswith("__" + n.lstrip("_")) for n in _instance_fields(pycls)) and \
-                    f not in _instance_fields(pycls):
-                if f not in _declared_fields(env, pycls):
-                    continue
+            probe = _instance_fields(pycls)
+            if probe and f not in probe and f not in _declared_fields(env, pycls):
+                continue            # the class is constructible and does not have this attribute
             val = conv(z3.Select(arr, z3.IntVal(ref_int)), env.fields.lookup(pycls, f), depth + 1)
             try:
                 object.__setattr__(o, f, val)
